@@ -108,10 +108,11 @@ class EventManager:
         for def_tag, group in group_tuples:
             anchor_tag = group.find_def_tags(recursive=False, include_groups=0)[0]
             anchor = anchor_tag.extension.casefold()
-            if anchor in onset_dict or def_tag == DefTagNames.OFFSET_KEY:
+            # Compare the schema tag, not the text of the tag (which starts with the namespace prefix, if any).
+            if anchor in onset_dict or def_tag.short_base_tag == DefTagNames.OFFSET_KEY:
                 temporal_event = onset_dict.pop(anchor)
                 temporal_event.set_end(event_index, self.onsets[event_index])
-            if def_tag == DefTagNames.ONSET_KEY:
+            if def_tag.short_base_tag == DefTagNames.ONSET_KEY:
                 new_event = TemporalEvent(group, event_index, self.onsets[event_index])
                 self.event_list[event_index].append(new_event)
                 onset_dict[anchor] = new_event
